@@ -6,11 +6,19 @@
   the correspondence run, instantiated with the library's own factorisation) and proved for EVERY factorisation
   satisfying `IsPLUQ`: NULL iff rank = ncols, otherwise K is n × (n − rank), A·K = 0, rank K = n − rank, a basis.
   Mathlib form: `ML.kernel_tests_mathlib`.
+  END TO END (M4riProofs/Top.lean, PB27) — no certificate hypothesis is left: over the real `mzd_pluq`
+  (`PR.pluqTop L1 L2 L3`, proved to return an `IsPLUQ` certificate on every well-formed input for every cache triple,
+  see C03), `mzd_kernel_left_pluq` satisfies, for every cache triple and every well-formed `A`:
+    `Top.kernelLeftPluq_top_none_iff`   `NULL` iff `rank A = ncols A`
+    `Top.kernelLeftPluq_top_some`       otherwise `K` is well formed, `n × (n − rank A)`, `A·K = 0`, `rank K = n − rank A`
+    `Top.kernelLeftPluq_top_basis`      its columns are a basis of the right null space; `Top.kernelLeftPluq_top_mathlib`
+  Nothing is per-input certification; `check_kernel` remains in the runs as a tie between the mirrors and the C code.
 -/
 import M4riProofs.Kernel
 import M4riProofs.GaussOK
 import M4riProofs.Solve
 import M4riProofs.MathlibSpec
+import M4riProofs.Top
 namespace M4ri.Props.C07
 open M4ri M4ri.BMat
 
@@ -38,5 +46,16 @@ theorem kernel_tests_sound {A K : BMat} (hA : A.WF) (hK : K.WF) (h1 : K.nrows = 
 #check @M4ri.BMat.ML.kernel_tests_mathlib
 #check @M4ri.BMat.checkKernel_sound
 #check @M4ri.BMat.checkKernel_sound'
+
+
+-- end to end over the real `mzd_pluq` (M4riProofs/Top.lean), every cache triple
+#check @M4ri.BMat.Top.pluqTop_isPLUQ
+#check @M4ri.BMat.Top.kernelLeftPluq_top_none_iff
+#check @M4ri.BMat.Top.kernelLeftPluq_top_some
+#check @M4ri.BMat.Top.kernelLeftPluq_top_basis
+#check @M4ri.BMat.Top.kernelLeftPluq_top_mathlib
+#check @M4ri.BMat.G2.kernelLeftPluq_none_iff
+#check @M4ri.BMat.G2.kernelLeftPluq_some
+#check @M4ri.BMat.G2.kernelLeftPluq_basis
 
 end M4ri.Props.C07
